@@ -188,7 +188,7 @@ def execute(cfg, V):
             s = csol.TimeDomainSolution(circuit=ca, w_max=wm)
             return [s.get_voltage(V.label('R1'))(t), s.get_current(V.label('C1'))(t)] + list(s.w)
         def tr():
-            tin = np.array([0.0, 1.0, 2.0])
+            tin = np.array([0.5, 1.5, 2.5])          # a grid that does not start at t = 0
             def stub(model, u, tt, x0): return tt, np.array([[V.val(f'x{k}{j}', 'cany') for j in range(model.A.shape[0])] for k in range(3)], dtype=object if V.sym else complex), None
             inp = {V.label('Vs'): (lambda tt: np.array([V.val(f'uv{k}', 'cany') for k in range(3)], dtype=object if V.sym else complex)),
                    V.label('Is'): (lambda tt: np.array([V.val(f'ui{k}', 'cany') for k in range(3)], dtype=object if V.sym else complex))}
